@@ -1062,6 +1062,10 @@ package compose
 //@   at call t.l.PushBack: assert[push_under_lock] @C03 held(t.mu)
 //@   at call t.l.PushBack: assert[push_own_task] @C03 arg0 == box(currentTask)
 //@   at call t.l.PushBack: ghost pushed++
+//@   ghost slotToppedUp bool = true
+//@   at call t.l.PushBack: ghost slotToppedUp = false
+//@   after call t.updateChan: ghost slotToppedUp = true
+//@   ensures[slot_topped_up_after_report] @C03 slotToppedUp
 //@   ensures[reported_once] @C03 pushed == 1
 //@   ensures[released] @C03 !held(t.mu)
 
@@ -1090,6 +1094,11 @@ package compose
 //@   props C03 C11
 //@   requires tmOK(t)
 //@   recv t.done: assume runnableTask(value)
+//@   ghost slotToppedUp bool = true
+//@   recv t.done: ghost slotToppedUp = false
+//@   after call t.updateChan: ghost slotToppedUp = true
+//@   ensures[slot_refilled_after_collect] @C03 slotToppedUp
+//@   note slot_refilled_after_collect: protocol invariant of the 1-slot channel: whoever empties the slot (the collector) or adds to the overflow list (an executor) calls updateChan before it returns, otherwise finished tasks queued in the list are never delivered and the next collect blocks forever
 //@   at call t.runWrapper: assert[post_handler_only_on_success] @C11 ta.err == nil
 //@   requires[lock_free] !held(t.mu)
 //@   modifies t.num, region("F|compose.task|output"), region("F|compose.task|err"), lock(t.mu)
